@@ -10,6 +10,7 @@ Import ListNotations.
 Open Scope N_scope.
 
 Lemma allowed_intro : forall c s o f,
+  op_runs c o = true ->
   (uses_staging (o_kind o) && stage_infra c f = true)
   \/ (takes_lock (o_kind o) && stage_lock c o f = true)
   \/ (uses_staging (o_kind o) && stage_anc c o f = true)
@@ -19,7 +20,7 @@ Lemma allowed_intro : forall c s o f,
   \/ (o_kind o = KPurge /\ purge_main c s o f = true)
   -> allowed c s o f = true.
 Proof.
-  intros c s o f H. unfold allowed. rewrite !orb_true_iff.
+  intros c s o f R H. apply allowed_of_flat; [exact R|]. unfold allowed_flat. rewrite !orb_true_iff.
   destruct H as [H|[H|[H|[H|[[K H]|[[K H]|[K H]]]]]]].
   - tauto.
   - tauto.
@@ -69,6 +70,7 @@ Qed.
 Section STAGE.
 Variables (c : cfg) (s : pre) (o : opd).
 Hypothesis HX : hex_ok (o_hex o) = true.
+Hypothesis RUN : op_runs c o = true.
 
 Lemma S_o_eq : S_o c o = c_stg c ++ ncomps (hashed_rel (o_hex o)).
 Proof. apply staged_root_eq. exact HX. Qed.
@@ -77,27 +79,27 @@ Lemma gen_infra_allowed : uses_staging (o_kind o) = true -> Forall (AL c s o) (g
 Proof.
   intro U. unfold g_infra. apply Forall_map_may. apply Forall_app. split.
   - apply Forall_forall. intros f H. destruct (mkdir_chain_spec _ _ _ H) as [ms [rest [NE [E1 E2]]]]. subst f.
-    apply allowed_intro. left. rewrite U. cbn. rewrite E1. rewrite under_app. reflexivity.
-  - repeat constructor; apply allowed_intro; left; rewrite U; cbn [andb stage_infra];
+    apply allowed_intro; [exact RUN|]. left. rewrite U. cbn. rewrite E1. rewrite under_app. reflexivity.
+  - repeat constructor; (apply allowed_intro; [exact RUN|]); left; rewrite U; cbn [andb stage_infra];
       first [ apply mem_path_In; cbn; tauto | apply orb_true_iff; right; apply mem_path_In; cbn; tauto ].
 Qed.
 
 Lemma gen_acquire_allowed : takes_lock (o_kind o) = true -> Forall (AL c s o) (g_acquire c o).
 Proof.
-  intro T. repeat constructor. apply allowed_intro. right. left. rewrite T. cbn. apply fpath_eqb_refl.
+  intro T. repeat constructor. apply allowed_intro; [exact RUN|]. right. left. rewrite T. cbn. apply fpath_eqb_refl.
 Qed.
 
 Lemma gen_release_allowed : takes_lock (o_kind o) = true -> Forall (AL c s o) (g_release c o).
 Proof.
-  intro T. repeat constructor. apply allowed_intro. right. left. rewrite T. cbn. apply fpath_eqb_refl.
+  intro T. repeat constructor. apply allowed_intro; [exact RUN|]. right. left. rewrite T. cbn. apply fpath_eqb_refl.
 Qed.
 
 Lemma body_allowed : forall f, body_ops (o_kind o) f = true -> stage_body c o f = true -> body_gate c s o = true ->
   allowed c s o f = true.
-Proof. intros f H1 H2 H3. apply allowed_intro. right. right. right. left. rewrite H1, H2, H3. reflexivity. Qed.
+Proof. intros f H1 H2 H3. apply allowed_intro; [exact RUN|]. right. right. right. left. rewrite H1, H2, H3. reflexivity. Qed.
 
 Lemma anc_allowed : forall f, uses_staging (o_kind o) = true -> stage_anc c o f = true -> allowed c s o f = true.
-Proof. intros f H1 H2. apply allowed_intro. right. right. left. rewrite H1, H2. reflexivity. Qed.
+Proof. intros f H1 H2. apply allowed_intro; [exact RUN|]. right. right. left. rewrite H1, H2. reflexivity. Qed.
 
 (** the chains between the staging root and the staged object root *)
 Lemma anc_mkdir_allowed : uses_staging (o_kind o) = true ->
@@ -202,7 +204,7 @@ Proof.
     apply Forall_flat_map. intros [src cp] Hin. pose proof (forallb_In _ _ _ F4 Hin) as RS. cbn [fst snd] in RS.
     apply andb_true_iff in RS as [R1 R2]. cbn [fst snd].
     apply Forall_app. split; [apply parents_allowed; assumption|]. repeat constructor.
-    apply allowed_intro. do 4 right. left. split; [exact K|]. unfold must; cbn [snd]; unfold mv_sources. rewrite R2, (g_file_below _ R1). reflexivity.
+    apply allowed_intro; [exact RUN|]. do 4 right. left. split; [exact K|]. unfold must; cbn [snd]; unfold mv_sources. rewrite R2, (g_file_below _ R1). reflexivity.
   - destruct K5 as [E|[BU BD]]; [rewrite E; constructor|].
     apply Forall_flat_map. intros cp Hin. pose proof (forallb_In _ _ _ F5 Hin) as RS.
     apply Forall_app. split; [|apply cleanup_allowed; assumption]. repeat constructor.
@@ -233,7 +235,7 @@ End STAGE.
 
 (** * the main-repository parts of commit *)
 Lemma gen_install_allowed : forall c s o g,
-  hex_ok (o_hex o) = true -> is_vstr (o_head o) = true -> is_sidecar (g_sidecar g) = true ->
+  op_runs c o = true -> hex_ok (o_hex o) = true -> is_vstr (o_head o) = true -> is_sidecar (g_sidecar g) = true ->
   (o_kind o = KCommit \/ o_kind o = KUpgrade) ->
   (if o_exists o then
      match mobj_at s (N_o c o) with Some m => negb (mem_seg (o_head o) (m_versions m)) | None => false end
@@ -241,11 +243,11 @@ Lemma gen_install_allowed : forall c s o g,
    else new_root_ok s (c_root c) (o_rel o)) = true ->
   Forall (AL c s o) (g_install c o g).
 Proof.
-  intros c s o g HX VS SC K H. unfold g_install. destruct (o_exists o) eqn:EX.
+  intros c s o g RUN HX VS SC K H. unfold g_install. destruct (o_exists o) eqn:EX.
   - apply andb_true_iff in H as [H D2]. apply andb_true_iff in H as [H D1].
     destruct (mobj_at s (N_o c o)) as [m|] eqn:M; [|discriminate].
     assert (CV : forall f, commit_version c s o f = true -> allowed c s o f = true).
-    { intros f Hf. apply allowed_intro. do 5 right. left. split; [exact K | right; exact Hf]. }
+    { intros f Hf. apply allowed_intro; [exact RUN|]. do 5 right. left. split; [exact K | right; exact Hf]. }
     assert (RF : forall sg (ok : fseg -> bool), ok sg = true -> child_with (N_o c o) (N_o c o ++ [sg]) ok = true)
       by (intros; apply child_with_intro; assumption).
     apply Forall_app. split.
@@ -261,7 +263,7 @@ Proof.
       * apply Forall_forall. intros x Hx. apply in_map_iff in Hx as [sg [E Hin]]. subst x. apply CV.
         unfold commit_version, must. cbn [snd]. rewrite EX, M, KK. cbn [andb]. apply RF. apply (forallb_In _ _ _ D1 Hin).
   - assert (CN : forall f, commit_new c s o f = true -> allowed c s o f = true).
-    { intros f Hf. apply allowed_intro. do 5 right. left. split; [exact K | left; exact Hf]. }
+    { intros f Hf. apply allowed_intro; [exact RUN|]. do 5 right. left. split; [exact K | left; exact Hf]. }
     pose proof H as NR. unfold new_root_ok in H. apply andb_true_iff in H as [V _].
     destruct (validate_root_shape _ _ _ V) as [c1 [cs [X [E _]]]]. fold (N_o c o) in E.
     apply Forall_app. split.
@@ -273,15 +275,15 @@ Proof.
 Qed.
 
 Lemma gen_finalize_allowed : forall c s o g,
-  hex_ok (o_hex o) = true -> is_vstr (o_head o) = true -> (o_kind o = KCommit \/ o_kind o = KUpgrade) ->
+  op_runs c o = true -> hex_ok (o_hex o) = true -> is_vstr (o_head o) = true -> (o_kind o = KCommit \/ o_kind o = KUpgrade) ->
   Forall (AL c s o) (g_finalize c o g).
 Proof.
-  intros c s o g HX VS K. destruct (head_paths c o VS) as [ES _].
+  intros c s o g RUN HX VS K. destruct (head_paths c o VS) as [ES _].
   assert (BG : body_gate c s o = true) by (unfold body_gate; destruct K as [K|K]; rewrite K; reflexivity).
   assert (BO : forall f, body_ops (o_kind o) f = true) by (intro f; destruct K as [K|K]; rewrite K; reflexivity).
-  unfold g_finalize. apply Forall_app. split; [apply gen_inventory_allowed; solve [exact HX | intro; apply BO | exact BG]|].
+  unfold g_finalize. apply Forall_app. split; [apply gen_inventory_allowed; solve [exact HX | exact RUN | intro; apply BO | exact BG]|].
   rewrite ES.
-  repeat constructor; apply body_allowed; try apply BO; try exact BG; cbn; rewrite <- ?app_assoc; try apply below_app.
+  repeat constructor; apply body_allowed; try exact RUN; try apply BO; try exact BG; cbn; rewrite <- ?app_assoc; try apply below_app.
   all: rewrite below_app; reflexivity.
 Qed.
 
@@ -303,7 +305,8 @@ Proof.
   apply andb_true_iff in H as [H K4]. apply andb_true_iff in H as [H K3]. apply andb_true_iff in H as [H K2].
   apply andb_true_iff in H as [H FD]. apply andb_true_iff in H as [H F4]. apply andb_true_iff in H as [H F3].
   apply andb_true_iff in H as [H F5]. apply andb_true_iff in H as [H F2]. apply andb_true_iff in H as [H F1].
-  apply andb_true_iff in H as [H RD]. apply andb_true_iff in H as [H SC]. apply andb_true_iff in H as [HX VS].
+  apply andb_true_iff in H as [H RD]. apply andb_true_iff in H as [H SC]. apply andb_true_iff in H as [H RUN].
+  apply andb_true_iff in H as [HX VS].
   unfold gen.
   destruct (o_kind o) eqn:K.
   (* the staging operations: New CpExt MvExt CpInt MvInt Rm Reset *)
@@ -328,7 +331,7 @@ Proof.
   all: try (right; first [ reflexivity | split; intros; rewrite K; reflexivity | intros; rewrite K; reflexivity ]).
   - (* MvExt: the source directories *)
     apply Forall_forall. intros x Hx. apply in_map_iff in Hx as [p [E Hin]]. subst x. unfold AL, must, may; cbn [snd].
-    apply allowed_intro. do 4 right. left. split; [exact K|]. cbn. apply (forallb_In _ _ _ FD Hin).
+    apply allowed_intro; [exact RUN|]. do 4 right. left. split; [exact K|]. cbn. apply (forallb_In _ _ _ FD Hin).
   - (* ResetAll *)
     apply andb_true_iff in K6 as [K6 K6c]. apply andb_true_iff in K6 as [K6a K6b].
     assert (U : uses_staging (o_kind o) = true) by (rewrite K; reflexivity).
@@ -376,19 +379,19 @@ Proof.
     assert (U : uses_staging (o_kind o) = true) by (rewrite K; reflexivity).
     pose proof (validate_root_shape _ _ _ V) as [c1 [cs [X [E _]]]]. fold (N_o c o) in E.
     assert (PM : forall f, purge_main c s o f = true -> allowed c s o f = true).
-    { intros f Hf. apply allowed_intro. do 6 right. split; [exact K | exact Hf]. }
+    { intros f Hf. apply allowed_intro; [exact RUN|]. do 6 right. split; [exact K | exact Hf]. }
     fsplit; [|fsplit; [|fsplit; [|fsplit]]].
     + apply gen_infra_allowed; assumption.
     + apply Forall_forall. intros x Hx. apply in_map_iff in Hx as [p [Ep Hin]]. subst x. unfold AL, must, may; cbn [snd].
       pose proof (forallb_In _ _ _ K6b Hin) as P. cbn beta in P. apply orb_true_iff in P as [P|P].
       * apply PM. unfold purge_main. rewrite V. cbn. exact P.
-      * apply andb_true_iff in P as [P1 P2]. apply body_allowed; [rewrite K; reflexivity | exact P2 | unfold body_gate; rewrite K; exact P1].
+      * apply andb_true_iff in P as [P1 P2]. apply body_allowed; [exact RUN | rewrite K; reflexivity | exact P2 | unfold body_gate; rewrite K; exact P1].
     + apply Forall_forall. intros x Hx. apply in_map_iff in Hx as [p [Ep Hin]]. subst x. unfold AL, must, may; cbn [snd].
       pose proof (forallb_In _ _ _ K6c Hin) as P. cbn beta in P. apply orb_true_iff in P as [P|P].
       * apply PM. unfold purge_main. rewrite V. cbn. rewrite P. reflexivity.
       * apply andb_true_iff in P as [P1 P2]. destruct (under_cases _ _ P2) as [Eq|B].
-        -- subst p. apply anc_allowed; [exact U|]. unfold stage_anc. rewrite (S_o_below c o HX), under_refl. reflexivity.
-        -- apply body_allowed; [rewrite K; reflexivity | exact B | unfold body_gate; rewrite K; exact P1].
+        -- subst p. apply anc_allowed; [exact RUN | exact U|]. unfold stage_anc. rewrite (S_o_below c o HX), under_refl. reflexivity.
+        -- apply body_allowed; [exact RUN | rewrite K; reflexivity | exact B | unfold body_gate; rewrite K; exact P1].
     + apply Forall_map_may. apply anc_rmdir_allowed; assumption.
     + apply Forall_map_may. apply Forall_forall. intros f Hf.
       destruct (rmdir_chain_spec _ _ _ Hf) as [ms [rest [NE [E1 E2]]]]. subst f. apply PM.
